@@ -100,6 +100,34 @@ func runC10(w *World, r *Report, tier string) {
 	}
 	r.Floor("R1", 13)
 	r.Floor("R2", 2)
+	// the concrete types under which the library itself sends acknowledgement elements must be among the never-held ones
+	for _, f := range w.LibFuncs() {
+		for _, c := range w.callsIn(f, "xmpp.Client.Send", "xmpp.Sender.Send", "xmpp.StreamClient.Send") {
+			args := c.Common().Args
+			mi, ok := args[len(args)-1].(*ssa.MakeInterface)
+			if !ok {
+				continue
+			}
+			T := mi.X.Type()
+			base := strings.TrimPrefix(w.typeStr(T), "*")
+			if base != "stanza.SMRequest" && base != "stanza.SMAnswer" {
+				continue
+			}
+			cons := fmt.Sprintf("%s→Send(%s)", w.funcKey(f), w.typeStr(T))
+			bad := ""
+			np := 0
+			walkPaths(entryLoc(send), nil, typeEdgeFilter(pkt, T), 20000, func(path []ssa.Instruction, end pathEnd) {
+				if !smOn(path) || countOn(path, isWr) == 0 {
+					return
+				}
+				np++
+				if countOn(path, isPush) != 0 {
+					bad = fmt.Sprintf("the library sends its acknowledgement element as a %s, a form Client.Send does not exempt: the element is put on the unacknowledged-stanza queue, numbered, and retransmitted with the stanzas", w.typeStr(T))
+				}
+			})
+			r.Check(bad == "" && np > 0, "R2", cons, w.ipos(c), bad, "sent in a form that Send never holds")
+		}
+	}
 	// what is pushed: the serialized data
 	for _, k := range []string{"xmpp.(*Client).Send", "xmpp.(*Client).SendRaw"} {
 		fn := w.Func(k)
